@@ -5,33 +5,33 @@ Import ListNotations.
 Open Scope Q_scope.
 
 (* result of the inner loop for one channel, for some values of the threaded variables *)
-Definition chan_res (l : list pinstr) (o : list Q * list Q) : Prop :=
-  exists ms md ms' md', concat_chan true true 0 ms md l = Some (fst o, snd o, ms', md').
+Definition chan_res (gtl : Q -> Q) (l : list pinstr) (o : list Q * list Q) : Prop :=
+  exists ms md ms' md', concat_chan true gtl true 0 ms md l = Some (fst o, snd o, ms', md').
 
-Lemma concat_all_F2 chs : forall ms md out ms' md',
-  concat_all true ms md chs = Some (out, ms', md') -> Forall2 chan_res chs out.
+Lemma concat_all_F2 gtl chs : forall ms md out ms' md',
+  concat_all true gtl ms md chs = Some (out, ms', md') -> Forall2 (chan_res gtl) chs out.
 Proof.
   induction chs as [|c r IH]; intros ms md out ms' md' H.
   - cbn in H. inversion H; subst. constructor.
   - cbn [concat_all] in H.
-    destruct (concat_chan true true 0 ms md c) as [[[[ts cs] ms1] md1]|] eqn:E1; [|discriminate].
-    destruct (concat_all true ms1 md1 r) as [[[out1 ms2] md2]|] eqn:E2; [|discriminate].
+    destruct (concat_chan true gtl true 0 ms md c) as [[[[ts cs] ms1] md1]|] eqn:E1; [|discriminate].
+    destruct (concat_all true gtl ms1 md1 r) as [[[out1 ms2] md2]|] eqn:E2; [|discriminate].
     inversion H; subst. constructor; [|eapply IH; exact E2].
     exists ms, md, ms1, md1. exact E1.
 Qed.
 
-Lemma concat_all_grid chs : forall ms md out ms' md',
+Lemma concat_all_grid gtl chs : (forall s, 0 < s -> 0 <= gtl s) -> forall ms md out ms' md',
   Forall (fun l => l <> [] /\ chain_ord 0 l) chs -> ms_pos ms ->
-  concat_all true ms md chs = Some (out, ms', md') ->
+  concat_all true gtl ms md chs = Some (out, ms', md') ->
   Forall (fun o => strictly_increasing (fst o)) out /\ ms_pos ms'.
 Proof.
-  induction chs as [|c r IH]; intros ms md out ms' md' HF Hms H.
+  intro Hgt. induction chs as [|c r IH]; intros ms md out ms' md' HF Hms H.
   - cbn in H. inversion H; subst. split; [constructor|exact Hms].
   - cbn [concat_all] in H.
-    destruct (concat_chan true true 0 ms md c) as [[[[ts cs] ms1] md1]|] eqn:E1; [|discriminate].
-    destruct (concat_all true ms1 md1 r) as [[[out1 ms2] md2]|] eqn:E2; [|discriminate].
+    destruct (concat_chan true gtl true 0 ms md c) as [[[[ts cs] ms1] md1]|] eqn:E1; [|discriminate].
+    destruct (concat_all true gtl ms1 md1 r) as [[[out1 ms2] md2]|] eqn:E2; [|discriminate].
     inversion H; subst. destruct (Forall_inv HF) as [Hne HC]. apply Forall_inv_tail in HF.
-    destruct (chan_grid _ _ _ _ _ _ _ Hne HC Hms E1) as (_ & Hinc & Hp & _).
+    destruct (chan_grid _ _ _ _ _ _ _ _ Hgt Hne HC Hms E1) as (_ & Hinc & Hp & _).
     destruct (IH _ _ _ _ _ HF Hp E2) as [A B]. split; [|exact B].
     constructor; [exact Hinc|exact A].
 Qed.
@@ -76,18 +76,20 @@ Qed.
 
 (* inversion of _concatenate_pulses *)
 Lemma concatenate_inv chs outs :
-  concatenate_pulses true chs = Some outs ->
-  exists out0 ms md final,
-    concat_all true None None chs = Some (out0, Some ms, Some md) /\
+  concatenate_pulses true true chs = Some outs ->
+  exists res out0 ms md final,
+    resolution chs = Some res /\
+    concat_all true (gap_tol true res) None None chs = Some (out0, Some ms, Some md) /\
     Forall (fun o => exists lv, last_opt (fst o) = Some lv /\ lv <= final) out0 /\
     Forall2 (fun o0 o => pad ms md final o0 = Some o) out0 outs.
 Proof.
   unfold concatenate_pulses.
-  destruct (concat_all true None None chs) as [[[out0 ms] md]|] eqn:E1; [|discriminate].
+  destruct (resolution chs) as [res|] eqn:ER; [|discriminate].
+  destruct (concat_all true (gap_tol true res) None None chs) as [[[out0 ms] md]|] eqn:E1; [|discriminate].
   destruct (all_some (map (fun tc => last_opt (fst tc)) out0)) as [lasts|] eqn:E2; [|discriminate].
   destruct (qmax_list lasts) as [final|] eqn:E3; [|discriminate].
   destruct ms as [ms|]; [|discriminate]. destruct md as [md|]; [|discriminate].
-  intro H. exists out0, ms, md, final. split; [reflexivity|]. split.
+  intro H. exists res, out0, ms, md, final. split; [reflexivity|]. split; [exact E1|]. split.
   - apply all_some_F2 in E2. clear - E2 E3.
     assert (G : forall x, In x lasts -> x <= final) by (intros x; apply qmax_list_ge; exact E3).
     clear E3. induction E2 as [|o lv out0 lasts E _ IH]; constructor.
@@ -112,14 +114,69 @@ Proof.
   - destruct k; cbn in *; [inversion H2; subst; eauto|]. eapply IH; eassumption.
 Qed.
 
+Lemma chain_ord_starts l : forall a i, chain_ord a l -> In i l -> a <= p_start i.
+Proof.
+  induction l as [|j rest IH]; intros a i HC HI; [destruct HI|].
+  destruct HC as (Hw & Hle & HC). destruct HI as [<-|HI]; [exact Hle|].
+  pose proof (IH _ _ HC HI). pose proof (wf_wave_end_pos _ Hw). unfold p_end in *. lra.
+Qed.
+
+(* ---------- the time resolution of a schedule ---------- *)
+Lemma entry_end_p_end p e : entry_end p = Some e -> e = p_end p.
+Proof.
+  unfold entry_end, p_end, wave_end. destruct (p_wave p) as [d c|ts cs]; cbn.
+  - intro H. inversion H. reflexivity.
+  - destruct (last_opt ts) as [e'|] eqn:E; [|discriminate]. intro H. inversion H.
+    rewrite (last_opt_last ts 0) in E by (eapply last_opt_some_ne; exact E). congruence.
+Qed.
+
+Lemma all_some_in {A B} (f : A -> option B) l : forall r x,
+  all_some (map f l) = Some r -> In x l -> exists y, f x = Some y /\ In y r.
+Proof.
+  induction l as [|a l IH]; intros r x H HI; [destruct HI|].
+  cbn in H. destruct (f a) as [y|] eqn:E; [|discriminate].
+  destruct (all_some (map f l)) as [r'|] eqn:E2; [|discriminate]. inversion H; subst.
+  destruct HI as [<-|HI]; [exists y; split; [exact E|left; reflexivity]|].
+  destruct (IH _ _ eq_refl HI) as (y' & A1 & A2). exists y'. split; [exact A1|right; exact A2].
+Qed.
+
+Lemma resolution_ge chs r l i :
+  resolution chs = Some r -> In l chs -> In i l -> (1 # 100000000000000) * p_end i <= r.
+Proof.
+  unfold resolution. destruct (all_some (map entry_end (concat chs))) as [ends|] eqn:E; [|discriminate].
+  intros H Hl Hi. inversion H; subst. clear H.
+  assert (HI : In i (concat chs)) by (apply in_concat; exists l; split; assumption).
+  destruct (all_some_in _ _ _ _ E HI) as (y & Ey & Iy). apply entry_end_p_end in Ey. subst y.
+  destruct (qmax_list ends) as [m|] eqn:EM.
+  - pose proof (qmax_list_ge _ _ _ EM Iy). lra.
+  - destruct ends; [destruct Iy|]. cbn in EM. destruct (qmax_list ends); [destruct (Qlt_b q q0)|]; discriminate.
+Qed.
+
+Lemma res_pos chs r l :
+  resolution chs = Some r -> In l chs -> l <> [] -> chain_ord 0 l -> 0 < r.
+Proof.
+  intros H Hl Hne HC. destruct l as [|i rest]; [congruence|].
+  pose proof (resolution_ge _ _ _ i H Hl (or_introl eq_refl)) as G.
+  destruct HC as (Hw & Hle & _). pose proof (wf_wave_end_pos _ Hw). unfold p_end in G. lra.
+Qed.
+
+Lemma gap_tol_true_nonneg res : 0 <= res -> forall s : Q, 0 < s -> 0 <= gap_tol true res s.
+Proof. intros H s _. exact H. Qed.
+
+Lemma gap_tol_false_nonneg res : forall s : Q, 0 < s -> 0 <= gap_tol false res s.
+Proof. intros s Hs. unfold gap_tol. pose proof tol_pos. apply Qmult_le_0_compat; lra. Qed.
+
 (* a channel of a successful concatenation, looked at alone *)
 Lemma channel_inv chs outs k l ts cs :
-  concatenate_pulses true chs = Some outs ->
+  concatenate_pulses true true chs = Some outs ->
   nth_error chs k = Some l -> nth_error outs k = Some (ts, cs) ->
-  exists ts0 cs0 idl, chan_res l (ts0, cs0) /\ ts = ts0 ++ idl /\ cs = cs0 ++ zeros idl /\ l <> [].
+  exists ts0 cs0 idl, chan_res (gap_tol true (res_of chs)) l (ts0, cs0) /\
+                      ts = ts0 ++ idl /\ cs = cs0 ++ zeros idl /\ l <> [] /\
+                      resolution chs = Some (res_of chs).
 Proof.
   intros H Hl Ho. apply concatenate_inv in H.
-  destruct H as (out0 & ms & md & final & E1 & EL & EP).
+  destruct H as (res & out0 & ms & md & final & ER & E1 & EL & EP).
+  unfold res_of. rewrite ER.
   apply concat_all_F2 in E1.
   destruct (F2_nth_ex _ _ _ EP k _ Ho) as ([ts0 cs0] & Hk0 & Hpad).
   pose proof (F2_nth _ _ _ E1 k _ _ Hl Hk0) as HR.
@@ -132,16 +189,16 @@ Qed.
 
 (* ---------- clause 1: every grid starts at zero ---------- *)
 Lemma all_start_zero chs outs k ts cs :
-  concatenate_pulses true chs = Some outs -> nth_error outs k = Some (ts, cs) ->
+  concatenate_pulses true true chs = Some outs -> nth_error outs k = Some (ts, cs) ->
   exists r, ts = 0 :: r.
 Proof.
   intros H Ho.
   assert (exists l, nth_error chs k = Some l) as [l Hl].
-  { pose proof H as H'. apply concatenate_inv in H'. destruct H' as (out0 & ms & md & final & E1 & _ & EP).
+  { pose proof H as H'. apply concatenate_inv in H'. destruct H' as (res & out0 & ms & md & final & ER & E1 & _ & EP).
     apply concat_all_F2 in E1.
     destruct (F2_nth_ex _ _ _ EP k _ Ho) as (o0 & Hk0 & _).
     destruct (F2_nth_ex _ _ _ E1 k _ Hk0) as (l & Hl & _). eauto. }
-  destruct (channel_inv _ _ _ _ _ _ H Hl Ho) as (ts0 & cs0 & idl & HR & -> & _ & Hne).
+  destruct (channel_inv _ _ _ _ _ _ H Hl Ho) as (ts0 & cs0 & idl & HR & -> & _ & Hne & _).
   destruct l as [|i rest]; [congruence|].
   destruct HR as (a & b & c & d & HR). cbn [fst snd] in HR.
   apply chan_starts_zero in HR. destruct HR as [r ->]. exists (r ++ idl). reflexivity.
@@ -149,7 +206,7 @@ Qed.
 
 (* ---------- clause 2: coefficient length fits the grid ---------- *)
 Lemma all_lengths chs outs k i rest ts cs :
-  concatenate_pulses true chs = Some outs ->
+  concatenate_pulses true true chs = Some outs ->
   nth_error chs k = Some (i :: rest) -> nth_error outs k = Some (ts, cs) ->
   (is_discrete (p_wave i) /\ length ts = S (length cs)) \/
   (is_continuous (p_wave i) /\ ~ is_discrete (p_wave i) /\ length ts = length cs).
@@ -163,16 +220,16 @@ Qed.
 
 (* ---------- clause 3: every grid increases strictly ---------- *)
 Lemma channels_nonempty chs outs :
-  concatenate_pulses true chs = Some outs -> Forall (fun l => l <> []) chs.
+  concatenate_pulses true true chs = Some outs -> Forall (fun l => l <> []) chs.
 Proof.
   intro H. rewrite Forall_forall. intros l Hl. apply In_nth_error in Hl. destruct Hl as [k Hl].
-  pose proof H as H'. apply concatenate_inv in H'. destruct H' as (out0 & ms & md & final & E1 & _ & EP).
+  pose proof H as H'. apply concatenate_inv in H'. destruct H' as (res & out0 & ms & md & final & ER & E1 & _ & EP).
   apply concat_all_F2 in E1.
   assert (exists o, nth_error outs k = Some o) as [[ts cs] Ho].
   { clear - E1 EP Hl. revert k out0 outs E1 EP Hl. induction chs as [|c r IH]; intros k out0 outs E1 EP Hl.
     - destruct k; discriminate.
     - inversion E1; subst. inversion EP; subst. destruct k; cbn in *; [eauto|]. eapply IH; eassumption. }
-  destruct (channel_inv _ _ _ _ _ _ H Hl Ho) as (_ & _ & _ & _ & _ & _ & Hne). exact Hne.
+  destruct (channel_inv _ _ _ _ _ _ H Hl Ho) as (_ & _ & _ & _ & _ & _ & Hne & _). exact Hne.
 Qed.
 
 Lemma last_opt_cons0 (r : list Q) : last_opt (0 :: r) = Some (last r 0).
@@ -182,16 +239,19 @@ Qed.
 
 Lemma all_increasing chs outs :
   Forall (chain_ord 0) chs ->
-  concatenate_pulses true chs = Some outs ->
+  concatenate_pulses true true chs = Some outs ->
   Forall (fun o => strictly_increasing (fst o)) outs.
 Proof.
   intros HC H. pose proof (channels_nonempty _ _ H) as Hne.
-  apply concatenate_inv in H. destruct H as (out0 & ms & md & final & E1 & EL & EP).
+  apply concatenate_inv in H. destruct H as (res & out0 & ms & md & final & ER & E1 & EL & EP).
   assert (HF : Forall (fun l => l <> [] /\ chain_ord 0 l) chs).
   { rewrite Forall_forall in *. intros l Hl. split; auto. }
-  pose proof (concat_all_F2 _ _ _ _ _ _ E1) as F2.
-  destruct (concat_all_grid chs None None out0 (Some ms) (Some md) HF I E1) as [Hinc Hms]. cbn in Hms.
-  clear E1 HC Hne HF.
+  assert (Hres : 0 <= res).
+  { destruct chs as [|l0 chs']; [cbn in E1; discriminate|].
+    apply Qlt_le_weak. apply (res_pos _ _ l0 ER); [left; reflexivity|exact (Forall_inv Hne)|exact (Forall_inv HC)]. }
+  pose proof (concat_all_F2 _ _ _ _ _ _ _ E1) as F2.
+  destruct (concat_all_grid _ chs (gap_tol_true_nonneg res Hres) None None out0 (Some ms) (Some md) HF I E1) as [Hinc Hms]. cbn in Hms.
+  clear E1 HC Hne HF ER.
   revert outs EP. induction F2 as [|l o0 chs out0 HR _ IH]; intros outs EP.
   - inversion EP. constructor.
   - inversion EP as [|? o ? outs' Hp EP']; subst.
@@ -217,27 +277,22 @@ Qed.
 
 (* ---------- clauses 4 and 5: the compiled discrete channel is the scheduled waveform ---------- *)
 Lemma all_waveform chs outs k l ts cs :
-  concatenate_pulses true chs = Some outs ->
+  concatenate_pulses true true chs = Some outs ->
   nth_error chs k = Some l -> nth_error outs k = Some (ts, cs) ->
-  chain_ord 0 l -> gaps_ok 0 l -> Forall (fun i => is_discrete (p_wave i)) l ->
+  chain_ord 0 l -> gaps_ok (gap_tol true (res_of chs)) 0 l -> Forall (fun i => is_discrete (p_wave i)) l ->
   forall t, eval_step ts cs t = spec_eval l t.
 Proof.
   intros H Hl Ho HC HG HD t.
-  destruct (channel_inv _ _ _ _ _ _ H Hl Ho) as (ts0 & cs0 & idl & HR & -> & -> & Hne).
+  destruct (channel_inv _ _ _ _ _ _ H Hl Ho) as (ts0 & cs0 & idl & HR & -> & -> & Hne & ER).
   destruct HR as (a & b & c & d & HR). cbn [fst snd] in HR.
-  rewrite <- (chan_eval _ _ _ _ _ _ _ HC HG HD HR t).
+  assert (Hres : 0 <= res_of chs).
+  { apply Qlt_le_weak. apply (res_pos _ _ l ER); [eapply nth_error_In; exact Hl|exact Hne|exact HC]. }
+  rewrite <- (chan_eval _ _ _ _ _ _ _ _ (gap_tol_true_nonneg _ Hres) HC HG HD HR t).
   destruct l as [|i rest]; [congruence|].
-  pose proof (chan_lengths_first _ _ _ _ _ _ _ _ _ HR) as HL.
+  pose proof (chan_lengths_first _ _ _ _ _ _ _ _ _ _ HR) as HL.
   destruct HL as [[_ HL]|[_ [Hnd _]]]; [|exfalso; apply Hnd; exact (Forall_inv HD)].
   destruct ts0 as [|t0 r]; [discriminate|]. cbn [app eval_step].
   apply eval_app_zeros. cbn in HL. lia.
-Qed.
-
-Lemma chain_ord_starts l : forall a i, chain_ord a l -> In i l -> a <= p_start i.
-Proof.
-  induction l as [|j rest IH]; intros a i HC HI; [destruct HI|].
-  destruct HC as (Hw & Hle & HC). destruct HI as [<-|HI]; [exact Hle|].
-  pose proof (IH _ _ HC HI). pose proof (wf_wave_end_pos _ Hw). unfold p_end in *. lra.
 Qed.
 
 Lemma spec_in_window l : forall a i t,
@@ -267,7 +322,7 @@ Qed.
 
 (* ---------- continuous channels ---------- *)
 Lemma all_samples chs outs k l ts cs :
-  concatenate_pulses true chs = Some outs ->
+  concatenate_pulses true true chs = Some outs ->
   nth_error chs k = Some l -> nth_error outs k = Some (ts, cs) ->
   Forall wf_cont l ->
   length ts = length cs /\
@@ -275,9 +330,9 @@ Lemma all_samples chs outs k l ts cs :
   (forall t c, In (t, c) (combine ts cs) -> c = 0 \/ exists i, In i l /\ In (t, c) (samples i)).
 Proof.
   intros H Hl Ho HW.
-  destruct (channel_inv _ _ _ _ _ _ H Hl Ho) as (ts0 & cs0 & idl & HR & -> & -> & Hne).
+  destruct (channel_inv _ _ _ _ _ _ H Hl Ho) as (ts0 & cs0 & idl & HR & -> & -> & Hne & _).
   destruct HR as (a & b & c & d & HR). cbn [fst snd] in HR.
-  destruct (chan_samples _ _ _ _ _ _ _ Hne HW HR) as (HL & IA & IB).
+  destruct (chan_samples _ _ _ _ _ _ _ _ Hne HW HR) as (HL & IA & IB).
   rewrite (combine_app _ _ _ _ HL). split; [rewrite !app_length, zeros_length; lia|]. split.
   - intros i Hi x Hx. apply in_or_app. left. exact (IA i Hi x Hx).
   - intros t c0 HI. apply in_app_or in HI. destruct HI as [HI|HI]; [exact (IB t c0 HI)|].
@@ -294,16 +349,16 @@ Definition scheduled (sched : option (list Q)) (il : list instr) : option (list 
                       end
   end.
 
-Lemma compile_decompose fx sched il out :
-  il <> [] -> compile fx sched il = Some out ->
+Lemma compile_decompose fx gx sched il out :
+  il <> [] -> compile fx gx sched il = Some out ->
   exists sil chs outs,
     scheduled sched il = Some sil /\ build_channels sil = Some chs /\
-    concatenate_pulses fx (map snd chs) = Some outs /\ out = combine (map fst chs) outs.
+    concatenate_pulses fx gx (map snd chs) = Some outs /\ out = combine (map fst chs) outs.
 Proof.
   intros Hne. unfold compile, scheduled. destruct il as [|i0 il]; [congruence|].
   destruct (all_some (map (fun i => duration (i_tl i)) (i0 :: il))) as [durs|]; [|discriminate].
   match goal with |- context [build_channels ?s] => destruct (build_channels s) as [chs|] eqn:EB end; [|discriminate].
-  destruct (concatenate_pulses fx (map snd chs)) as [outs|] eqn:EC; [|discriminate].
+  destruct (concatenate_pulses fx gx (map snd chs)) as [outs|] eqn:EC; [|discriminate].
   intro H. inversion H; subst. eexists _, chs, outs. repeat split; assumption || reflexivity.
 Qed.
 
